@@ -1,4 +1,5 @@
 import MypyVerif.Model.StubSig
+import MypyVerif.Proofs.StubDefault
 /-!
 Helper lemmas for C19 (a): the emit loop over segments of the argument list, the parser over segments of
 the emitted items.  Core Lean only.
@@ -100,6 +101,18 @@ theorem argItem_param (f : Bool) (a : Arg) (h : a.kind = .pos ∨ a.kind = .name
   | none =>
     rcases h with h | h <;> simp only [h] <;> exact ⟨_, _, rfl, rfl⟩
 
+/-- … and when the initializer is `good`, the rendered default is well-formed text -/
+theorem argItem_param_ok (f : Bool) (a : Arg) (h : a.kind = .pos ∨ a.kind = .named)
+    (hg : ∀ d ∈ a.dflt, d.good = true) :
+    ∃ ann d, argItem sl f a = .param a.name ann d ∧ d.isSome = a.dflt.isSome ∧ dfltLexOk d = true := by
+  unfold argItem
+  cases hd : a.dflt with
+  | some d => exact ⟨_, _, rfl, rfl, defaultToks_lexOk sl d (hg d (by simp [hd]))⟩
+  | none =>
+    rcases h with h | h <;> simp only [h] <;> exact ⟨_, _, rfl, rfl, rfl⟩
+
+def GoodArgs (l : List Arg) : Prop := ∀ a ∈ l, ∀ d ∈ a.dflt, d.good = true
+
 theorem argItem_star (f : Bool) (a : Arg) (hk : a.kind = .star) (hd : a.dflt = none) :
     ∃ ann, argItem sl f a = .vararg a.name ann := by
   unfold argItem; simp only [hd, hk]; exact ⟨_, rfl⟩
@@ -139,7 +152,7 @@ theorem mono_append (sd : Bool) (l1 l2 : List Bool) :
 
 /-- positional parameters, before or after `/` -/
 theorem run_pos (seg : List Arg) (hk : ∀ a ∈ seg, a.kind = .pos) (i : Nat) (ph : Phase) (sd nk : Bool)
-    (acc : List Summ) (hph : ph = .pre ∨ ph = .post)
+    (acc : List Summ) (hph : ph = .pre ∨ ph = .post) (hg : GoodArgs seg)
     (hm : mono sd (seg.map fun a => a.dflt.isSome) = true) :
     run { ph := ph, sd := sd, nk := nk, acc := acc } (itemsFrom sl i seg) =
       some { ph := ph, sd := sd || seg.any (fun a => a.dflt.isSome), nk := nk,
@@ -147,7 +160,7 @@ theorem run_pos (seg : List Arg) (hk : ∀ a ∈ seg, a.kind = .pos) (i : Nat) (
   induction seg generalizing i sd acc with
   | nil => simp [itemsFrom, run]
   | cons a r ih =>
-    obtain ⟨ann, d, he, hd⟩ := argItem_param sl (i == 0) a (Or.inl (hk a (by simp)))
+    obtain ⟨ann, d, he, hd, hok⟩ := argItem_param_ok sl (i == 0) a (Or.inl (hk a (by simp))) (hg a (by simp))
     simp only [List.map_cons, mono, Bool.and_eq_true] at hm
     have hstep : pstep { ph := ph, sd := sd, nk := nk, acc := acc } (.param a.name ann d) =
         some { ph := ph, sd := sd || a.dflt.isSome, nk := nk, acc := acc ++ [(a.name, PKind.pos, a.dflt.isSome)] } := by
@@ -155,26 +168,298 @@ theorem run_pos (seg : List Arg) (hk : ∀ a ∈ seg, a.kind = .pos) (i : Nat) (
         have := hm.1
         rw [← hd] at this
         cases sd <;> cases d <;> simp_all
-      rcases hph with rfl | rfl <;> simp [pstep, hnot, hd]
+      rcases hph with rfl | rfl <;> simp [pstep, hnot, hd, hok]
     simp only [itemsFrom, run, he, hstep, Option.bind_some]
-    rw [ih (fun x hx => hk x (by simp [hx])) _ _ _ hm.2]
+    rw [ih (fun x hx => hk x (by simp [hx])) _ _ _ (fun x hx => hg x (by simp [hx])) hm.2]
     simp [Bool.or_assoc, List.append_assoc]
 
 /-- keyword-only parameters, after `*` -/
-theorem run_kw (seg : List Arg) (hk : ∀ a ∈ seg, a.kind = .named) (i : Nat) (sd nk : Bool) (acc : List Summ) :
+theorem run_kw (seg : List Arg) (hk : ∀ a ∈ seg, a.kind = .named) (hg : GoodArgs seg) (i : Nat) (sd nk : Bool)
+    (acc : List Summ) :
     run { ph := .kw, sd := sd, nk := nk, acc := acc } (itemsFrom sl i seg) =
       some { ph := .kw, sd := sd, nk := nk && seg.isEmpty,
              acc := acc ++ seg.map fun a => (a.name, PKind.kwOnly, a.dflt.isSome) } := by
   induction seg generalizing i nk acc with
   | nil => simp [itemsFrom, run]
   | cons a r ih =>
-    obtain ⟨ann, d, he, hd⟩ := argItem_param sl (i == 0) a (Or.inr (hk a (by simp)))
-    simp only [itemsFrom, run, he, pstep, Option.bind_some]
-    rw [ih (fun x hx => hk x (by simp [hx]))]
+    obtain ⟨ann, d, he, hd, hok⟩ := argItem_param_ok sl (i == 0) a (Or.inr (hk a (by simp))) (hg a (by simp))
+    simp only [itemsFrom, run, he, pstep, hok, Bool.not_true, Bool.false_eq_true, ↓reduceIte, Option.bind_some]
+    rw [ih (fun x hx => hk x (by simp [hx])) (fun x hx => hg x (by simp [hx]))]
     simp [hd, List.append_assoc]
 
 theorem insertAt_length_append (l1 l2 : List α) (x : α) :
     insertAt l1.length x (l1 ++ l2) = l1 ++ x :: l2 := by
   simp [insertAt]
+
+/-! ## (a) signature emission -/
+
+def PySig.aPo (s : PySig) : List Arg := s.po.map (mkArg .pos true)
+def PySig.aPp (s : PySig) : List Arg := s.pp.map (mkArg .pos false)
+def PySig.aVa (s : PySig) : List Arg := s.va.toList.map (mkVArg .star)
+def PySig.aKw (s : PySig) : List Arg := s.kw.map (mkArg .named false)
+def PySig.aKa (s : PySig) : List Arg := s.ka.toList.map (mkVArg .star2)
+
+/-- the bare `*` is emitted exactly when there are keyword-only parameters and no `*args` -/
+def PySig.starItems (s : PySig) : List Item := if s.va.isNone && !s.kw.isEmpty then [.bareStar] else []
+
+/-- the emitted parameter list, written along the grammar's production -/
+def PySig.shape (s : PySig) : List Item :=
+  itemsFrom sl 0 s.aPo ++ (if s.po.isEmpty then [] else [Item.slash]) ++
+  itemsFrom sl s.po.length s.aPp ++ itemsFrom sl (s.po.length + s.pp.length) s.aVa ++ s.starItems ++
+  itemsFrom sl (s.po.length + s.pp.length + s.aVa.length) s.aKw ++
+  itemsFrom sl (s.po.length + s.pp.length + s.aVa.length + s.kw.length) s.aKa
+
+theorem countPO_aPo (s : PySig) : countPO s.aPo = s.po.length := by
+  simp [countPO, PySig.aPo, mkArg, List.filter_map, Function.comp_def]
+
+theorem countPO_noElide (l : List PParam) (k : AKind) (h : ∀ p ∈ l, elide p.name = false) :
+    countPO (l.map (mkArg k false)) = 0 := by
+  induction l with
+  | nil => rfl
+  | cons p r ih =>
+    have hp := h p (by simp)
+    have := ih (fun x hx => h x (by simp [hx]))
+    simp only [countPO, List.map_cons, List.filter_cons, mkArg, hp, Bool.or_self, Bool.false_eq_true,
+      ↓reduceIte] at this ⊢
+    exact this
+
+theorem countPO_v (o : Option VParam) (k : AKind) (h : ∀ p ∈ o, elide p.name = false) :
+    countPO (o.toList.map (mkVArg k)) = 0 := by
+  cases o with
+  | none => rfl
+  | some v => have := h v rfl; simp [countPO, mkVArg, this]
+
+/-- The loop of `_get_func_args` followed by the `/` insertion produces exactly the grammar-shaped list. -/
+theorem emit_shape (s : PySig) (hne : s.NoElide) : emitArgs sl false s.toMypy = s.shape sl := by
+  obtain ⟨hpp, hva, hkw, hka⟩ := hne
+  have hsplit : s.toMypy = (s.aPo ++ s.aPp ++ s.aVa) ++ s.aKw ++ s.aKa := by
+    simp [PySig.toMypy, PySig.aPo, PySig.aPp, PySig.aVa, PySig.aKw, PySig.aKa]
+  have h1 : ∀ a ∈ s.aPo ++ s.aPp ++ s.aVa, a.kind ≠ .named := by
+    intro a ha
+    simp only [PySig.aPo, PySig.aPp, PySig.aVa, List.mem_append, List.mem_map] at ha
+    rcases ha with (⟨p, _, rfl⟩ | ⟨p, _, rfl⟩) | ⟨p, _, rfl⟩ <;> simp [mkArg, mkVArg]
+  have hkwk : ∀ a ∈ s.aKw, a.kind = .named := by
+    intro a ha; simp only [PySig.aKw, List.mem_map] at ha; obtain ⟨p, _, rfl⟩ := ha; rfl
+  have hkak : ∀ a ∈ s.aKa, a.kind ≠ .named := by
+    intro a ha; simp only [PySig.aKa, List.mem_map] at ha; obtain ⟨p, _, rfl⟩ := ha; simp [mkVArg]
+  have hcnt : countPO (s.aPo ++ s.aPp ++ s.aVa) = s.po.length := by
+    rw [countPO_append, countPO_append, countPO_aPo]
+    have := countPO_noElide s.pp .pos hpp
+    have := countPO_v s.va .star hva
+    simp_all [PySig.aPp, PySig.aVa]
+  have hcntkw : countPO s.aKw = 0 := countPO_noElide s.kw .named hkw
+  have hcntka : countPO s.aKa = 0 := countPO_v s.ka .star2 hka
+  -- the state after the three non-keyword segments
+  have hst1 := fold_nonNamed sl (s.aPo ++ s.aPp ++ s.aVa) h1 { out := [], cnt := 0, idx := 0 }
+  simp only [List.nil_append, Nat.zero_add, hcnt] at hst1
+  -- starred-ness of what has been collected so far
+  have hstar : (itemsFrom sl 0 (s.aPo ++ s.aPp ++ s.aVa)).any Item.starred = s.va.isSome := by
+    rw [itemsFrom_append, List.any_append]
+    have hp : (itemsFrom sl 0 (s.aPo ++ s.aPp)).any Item.starred = false := by
+      apply itemsFrom_params_not_starred
+      intro a ha
+      simp only [PySig.aPo, PySig.aPp, List.mem_append, List.mem_map] at ha
+      rcases ha with ⟨p, _, rfl⟩ | ⟨p, _, rfl⟩ <;> exact Or.inl rfl
+    rw [hp, Bool.false_or]
+    cases hv : s.va with
+    | none => simp [PySig.aVa, hv, itemsFrom]
+    | some v =>
+      have he : ∀ f, (argItem sl f (mkVArg .star v)).starred = true := by
+        intro f; obtain ⟨ann, he⟩ := argItem_star sl f (mkVArg .star v) rfl rfl; rw [he]; rfl
+      simp [PySig.aVa, hv, itemsFrom, he]
+  -- the keyword-only segment
+  have hst2 : (s.aKw).foldl (estep sl false)
+        { out := itemsFrom sl 0 (s.aPo ++ s.aPp ++ s.aVa), cnt := s.po.length, idx := (s.aPo ++ s.aPp ++ s.aVa).length } =
+      { out := itemsFrom sl 0 (s.aPo ++ s.aPp ++ s.aVa) ++ s.starItems ++
+                 itemsFrom sl (s.aPo ++ s.aPp ++ s.aVa).length s.aKw,
+        cnt := s.po.length, idx := (s.aPo ++ s.aPp ++ s.aVa).length + s.aKw.length } := by
+    cases hk : s.aKw with
+    | nil =>
+      have : s.kw = [] := by simpa [PySig.aKw] using hk
+      simp [itemsFrom, PySig.starItems, this]
+    | cons a r =>
+      have hkne : s.kw.isEmpty = false := by
+        cases hq : s.kw with
+        | nil => simp [PySig.aKw, hq] at hk
+        | cons _ _ => rfl
+      rw [hk] at hkwk hcntkw
+      cases hv : s.va with
+      | none =>
+        rw [fold_named_fresh sl a r hkwk _ (by rw [hstar, hv]; rfl)]
+        simp [PySig.starItems, hv, hkne, hcntkw]
+      | some v =>
+        rw [fold_named_starred sl (a :: r) hkwk _ (by rw [hstar, hv]; rfl)]
+        simp [PySig.starItems, hv, hcntkw]
+  have hst3 := fold_nonNamed sl s.aKa hkak
+    { out := itemsFrom sl 0 (s.aPo ++ s.aPp ++ s.aVa) ++ s.starItems ++
+               itemsFrom sl (s.aPo ++ s.aPp ++ s.aVa).length s.aKw,
+      cnt := s.po.length, idx := (s.aPo ++ s.aPp ++ s.aVa).length + s.aKw.length }
+  simp only [hcntka, Nat.add_zero] at hst3
+  have hlen : (s.aPo ++ s.aPp ++ s.aVa).length = s.po.length + s.pp.length + s.aVa.length := by
+    simp [PySig.aPo, PySig.aPp]; omega
+  have hlenkw : s.aKw.length = s.kw.length := by simp [PySig.aKw]
+  unfold emitArgs
+  rw [hsplit, List.foldl_append, List.foldl_append, hst1, hst2, hst3]
+  simp only [hlen, hlenkw]
+  rw [itemsFrom_append, itemsFrom_append]
+  have hpolen : (itemsFrom sl 0 s.aPo).length = s.po.length := by
+    rw [itemsFrom_length]; simp [PySig.aPo]
+  have hapolen : s.aPo.length = s.po.length := by simp [PySig.aPo]
+  have happlen : s.aPp.length = s.pp.length := by simp [PySig.aPp]
+  unfold PySig.shape
+  cases hpo : s.po with
+  | nil =>
+    simp [PySig.aPo, hpo, itemsFrom, happlen]
+  | cons p r =>
+    have hne0 : ¬ (p :: r).length = 0 := by simp
+    rw [hpo] at hpolen hapolen
+    simp only [hne0, ↓reduceIte, List.isEmpty_cons, Bool.false_eq_true, hapolen, happlen,
+      List.length_append, Nat.zero_add, List.append_assoc]
+    rw [← hpolen, insertAt_length_append]
+    simp [hpolen]
+
+theorem aPo_hasD (s : PySig) : (s.aPo.map fun a => a.dflt.isSome) = s.po.map PParam.hasD := by
+  simp [PySig.aPo, mkArg, PParam.hasD, Function.comp_def]
+theorem aPp_hasD (s : PySig) : (s.aPp.map fun a => a.dflt.isSome) = s.pp.map PParam.hasD := by
+  simp [PySig.aPp, mkArg, PParam.hasD, Function.comp_def]
+
+/-- parsing the positional part of the shape -/
+theorem run_positional (s : PySig) (hd : s.DefaultsOk) (hgd : s.GoodDefaults) :
+    run PSt.init (itemsFrom sl 0 s.aPo ++ (if s.po.isEmpty then [] else [Item.slash]) ++
+        itemsFrom sl s.po.length s.aPp) =
+      some { ph := if s.po.isEmpty then .pre else .post, sd := (s.po ++ s.pp).any PParam.hasD, nk := false,
+             acc := s.po.map (fun p => (p.name, PKind.posOnly, p.hasD)) ++
+                    s.pp.map (fun p => (p.name, PKind.pos, p.hasD)) } := by
+  unfold PySig.DefaultsOk at hd
+  rw [List.map_append, mono_append, Bool.and_eq_true] at hd
+  obtain ⟨hm1, hm2⟩ := hd
+  have hkpo : ∀ a ∈ s.aPo, a.kind = .pos := by
+    intro a ha; simp only [PySig.aPo, List.mem_map] at ha; obtain ⟨p, _, rfl⟩ := ha; rfl
+  have hkpp : ∀ a ∈ s.aPp, a.kind = .pos := by
+    intro a ha; simp only [PySig.aPp, List.mem_map] at ha; obtain ⟨p, _, rfl⟩ := ha; rfl
+  have hfun : (fun x : PParam => x.dflt.isSome) = PParam.hasD := rfl
+  have hanyPo : (s.aPo.any fun a => a.dflt.isSome) = s.po.any PParam.hasD := by
+    simp [PySig.aPo, mkArg, List.any_map, Function.comp_def, hfun]
+  have hanyPp : (s.aPp.any fun a => a.dflt.isSome) = s.pp.any PParam.hasD := by
+    simp [PySig.aPp, mkArg, List.any_map, Function.comp_def, hfun]
+  have hgpo : GoodArgs s.aPo := by
+    intro a ha d hdm
+    simp only [PySig.aPo, List.mem_map] at ha; obtain ⟨p, hp, rfl⟩ := ha
+    exact hgd p (by simp [hp]) d hdm
+  have hgpp : GoodArgs s.aPp := by
+    intro a ha d hdm
+    simp only [PySig.aPp, List.mem_map] at ha; obtain ⟨p, hp, rfl⟩ := ha
+    exact hgd p (by simp [hp]) d hdm
+  have hanyId : ((s.po.map PParam.hasD).any id) = s.po.any PParam.hasD := by
+    simp [List.any_map, Function.comp_def]
+  have haccPo : (s.aPo.map fun a => (a.name, PKind.pos, a.dflt.isSome)) =
+      s.po.map fun p => (p.name, PKind.pos, p.hasD) := by
+    simp [PySig.aPo, mkArg, PParam.hasD, Function.comp_def]
+  have haccPp : (s.aPp.map fun a => (a.name, PKind.pos, a.dflt.isSome)) =
+      s.pp.map fun p => (p.name, PKind.pos, p.hasD) := by
+    simp [PySig.aPp, mkArg, PParam.hasD, Function.comp_def]
+  rw [run_append, run_append]
+  rw [show PSt.init = { ph := .pre, sd := false, nk := false, acc := [] } from rfl]
+  rw [run_pos sl s.aPo hkpo 0 .pre false false [] (Or.inl rfl) hgpo (by rw [aPo_hasD]; exact hm1)]
+  simp only [Option.bind_some, Bool.false_or, List.nil_append, hanyPo, haccPo]
+  rw [hanyId] at hm2
+  cases hpo : s.po with
+  | nil =>
+    simp only [List.isEmpty_nil, ↓reduceIte, run, Option.bind_some, List.any_nil, List.map_nil, List.length_nil]
+    rw [hpo] at hm2
+    rw [run_pos sl s.aPp hkpp 0 .pre false false [] (Or.inl rfl) hgpp (by rw [aPp_hasD]; simpa using hm2)]
+    simp [hanyPp, haccPp]
+  | cons p r =>
+    rw [hpo] at hm2
+    simp only [List.isEmpty_cons, Bool.false_eq_true, ↓reduceIte, run, pstep, List.map_cons, List.isEmpty_cons,
+      Option.bind_some]
+    rw [run_pos sl s.aPp hkpp _ .post _ false _ (Or.inr rfl) hgpp (by rw [aPp_hasD]; exact hm2)]
+    simp [hanyPp, haccPp, toPosOnly, Function.comp_def, Bool.or_assoc]
+
+/-- parsing what follows the positional part -/
+theorem run_tail (s : PySig) (hgd : s.GoodDefaults) (i j k : Nat) (ph : Phase) (sd : Bool) (acc : List Summ)
+    (hph : ph = .pre ∨ ph = .post) :
+    ∃ st', run { ph := ph, sd := sd, nk := false, acc := acc }
+        (itemsFrom sl i s.aVa ++ s.starItems ++ itemsFrom sl j s.aKw ++ itemsFrom sl k s.aKa) = some st' ∧
+      st'.nk = false ∧
+      st'.acc = acc ++ s.va.toList.map (fun p => (p.name, PKind.varArg, false)) ++
+                s.kw.map (fun p => (p.name, PKind.kwOnly, p.hasD)) ++
+                s.ka.toList.map (fun p => (p.name, PKind.kwArg, false)) := by
+  have hkw : ∀ a ∈ s.aKw, a.kind = .named := by
+    intro a ha; simp only [PySig.aKw, List.mem_map] at ha; obtain ⟨p, _, rfl⟩ := ha; rfl
+  have hacckw : (s.aKw.map fun a => (a.name, PKind.kwOnly, a.dflt.isSome)) =
+      s.kw.map fun p => (p.name, PKind.kwOnly, p.hasD) := by
+    simp [PySig.aKw, mkArg, PParam.hasD, Function.comp_def]
+  have hemp : s.aKw.isEmpty = s.kw.isEmpty := by simp [PySig.aKw]
+  have hgkw : GoodArgs s.aKw := by
+    intro a ha d hdm
+    simp only [PySig.aKw, List.mem_map] at ha; obtain ⟨p, hp, rfl⟩ := ha
+    exact hgd p (by simp [hp]) d hdm
+  -- the `**kwargs` step, from any phase but `done`, with no pending bare star
+  have hka : ∀ (ph' : Phase) (acc' : List Summ), ph' ≠ .done →
+      ∃ st', run { ph := ph', sd := sd, nk := false, acc := acc' } (itemsFrom sl k s.aKa) = some st' ∧
+        st'.nk = false ∧ st'.acc = acc' ++ s.ka.toList.map (fun p => (p.name, PKind.kwArg, false)) := by
+    intro ph' acc' hne
+    cases hk : s.ka with
+    | none => exact ⟨{ ph := ph', sd := sd, nk := false, acc := acc' }, by simp [PySig.aKa, hk, itemsFrom, run], rfl, by simp⟩
+    | some v =>
+      obtain ⟨ann, he⟩ := argItem_star2 sl (k == 0) (mkVArg .star2 v) rfl rfl
+      have he' : argItem sl (k == 0) (mkVArg .star2 v) = .kwarg v.name ann := he
+      refine ⟨{ ph := .done, sd := sd, nk := false, acc := acc' ++ [(v.name, PKind.kwArg, false)] }, ?_, rfl, by simp⟩
+      cases ph' <;> simp_all [PySig.aKa, itemsFrom, run, pstep]
+  rw [run_append, run_append, run_append]
+  cases hv : s.va with
+  | some v =>
+    obtain ⟨ann, he⟩ := argItem_star sl (i == 0) (mkVArg .star v) rfl rfl
+    have he' : argItem sl (i == 0) (mkVArg .star v) = .vararg v.name ann := he
+    have h1 : run { ph := ph, sd := sd, nk := false, acc := acc } (itemsFrom sl i s.aVa) =
+        some { ph := .kw, sd := sd, nk := false, acc := acc ++ [(v.name, PKind.varArg, false)] } := by
+      rcases hph with rfl | rfl <;> simp [PySig.aVa, hv, itemsFrom, run, he', pstep]
+    have h2 : s.starItems = [] := by simp [PySig.starItems, hv]
+    rw [h1, h2]
+    simp only [Option.bind_some, run, run_kw sl s.aKw hkw hgkw, Bool.false_and, hacckw]
+    obtain ⟨st', hr, hn, ha⟩ := hka .kw (acc ++ [(v.name, PKind.varArg, false)] ++
+      s.kw.map fun p => (p.name, PKind.kwOnly, p.hasD)) (by simp)
+    exact ⟨st', hr, hn, by simp [ha]⟩
+  | none =>
+    have h1 : run { ph := ph, sd := sd, nk := false, acc := acc } (itemsFrom sl i s.aVa) =
+        some { ph := ph, sd := sd, nk := false, acc := acc } := by simp [PySig.aVa, hv, itemsFrom, run]
+    rw [h1]
+    simp only [Option.bind_some]
+    cases hq : s.kw with
+    | nil =>
+      have h2 : s.starItems = [] := by simp [PySig.starItems, hq]
+      have h3 : s.aKw = [] := by simp [PySig.aKw, hq]
+      rw [h2, h3]
+      simp only [run, itemsFrom, Option.bind_some]
+      obtain ⟨st', hr, hn, ha⟩ := hka ph acc (by rcases hph with rfl | rfl <;> simp)
+      exact ⟨st', hr, hn, by simp [ha]⟩
+    | cons p r =>
+      have h2 : s.starItems = [Item.bareStar] := by simp [PySig.starItems, hv, hq]
+      have h3 : run { ph := ph, sd := sd, nk := false, acc := acc } [Item.bareStar] =
+          some { ph := .kw, sd := sd, nk := true, acc := acc } := by
+        rcases hph with rfl | rfl <;> simp [run, pstep]
+      have h4 : s.aKw.isEmpty = false := by rw [hemp, hq]; rfl
+      rw [h2, h3]
+      simp only [Option.bind_some, run_kw sl s.aKw hkw hgkw, h4, Bool.and_false, hacckw]
+      rw [← hq]
+      obtain ⟨st', hr, hn, ha⟩ := hka .kw (acc ++ s.kw.map fun p => (p.name, PKind.kwOnly, p.hasD)) (by simp)
+      exact ⟨st', hr, hn, by simp [ha]⟩
+
+theorem itemsFrom_params (i : Nat) (l : List Arg) (h : ∀ a ∈ l, a.kind = .pos ∨ a.kind = .named) :
+    (∀ x ∈ itemsFrom sl i l, x.isParam = true) ∧
+    (itemsFrom sl i l).map Item.hasD = l.map fun a => a.dflt.isSome := by
+  induction l generalizing i with
+  | nil => simp [itemsFrom]
+  | cons a r ih =>
+    obtain ⟨ann, d, he, hd⟩ := argItem_param sl (i == 0) a (h a (by simp))
+    obtain ⟨h1, h2⟩ := ih (i + 1) (fun x hx => h x (by simp [hx]))
+    constructor
+    · intro x hx
+      simp only [itemsFrom, List.mem_cons] at hx
+      rcases hx with rfl | hx
+      · rw [he]; rfl
+      · exact h1 x hx
+    · simp [itemsFrom, he, Item.hasD, hd, h2]
 
 end StubSig
